@@ -49,6 +49,137 @@ fn dir_sizes(dir: &str) -> J {
     J::Object(m)
 }
 
+/// (database, reclaim) in the order snapshot_all_pendding_dbs will process them (dedup, then pop from the end)
+fn snapshot_queue(node: &Node) -> Vec<(String, bool)> {
+    let mut q = node.dbs.to_snapshot.read().unwrap().clone();
+    q.dedup();
+    q.reverse();
+    q
+}
+
+fn intern(strs: &mut Vec<Vec<u8>>, b: &[u8]) -> usize {
+    if let Some(i) = strs.iter().position(|x| x.as_slice() == b) {
+        return i + 1;
+    }
+    strs.push(b.to_vec());
+    strs.len()
+}
+
+const DB_FILE_KINDS: [(&str, &str); 5] = [("K", "-nun.data.keys"), ("KO", "-nun.data.keys.old"), ("V", "-nun.data.values"),
+                                          ("VO", "-nun.data.values.old"), ("M", "-nun.madadata")];
+
+/// content of the five files of every named database ("<db>/<kind>" -> bytes or None)
+fn db_files(dir: &str, dbs: &[String]) -> std::collections::BTreeMap<String, Option<Vec<u8>>> {
+    let mut m = std::collections::BTreeMap::new();
+    for d in dbs {
+        for (kind, suffix) in DB_FILE_KINDS.iter() {
+            m.insert(format!("{}/{}", d, kind), std::fs::read(format!("{}/{}{}", dir, d, suffix)).ok());
+        }
+    }
+    m
+}
+
+/// what changed between two images, per file: gone / created / one splice (common prefix and suffix kept)
+fn patches(prev: &std::collections::BTreeMap<String, Option<Vec<u8>>>, cur: &std::collections::BTreeMap<String, Option<Vec<u8>>>) -> J {
+    let mut out = vec![];
+    for (name, now) in cur.iter() {
+        let before = prev.get(name).cloned().unwrap_or(None);
+        let (d, f) = name.split_once('/').unwrap();
+        match (before, now) {
+            (None, None) => {}
+            (Some(_), None) => out.push(json!({"db": d, "f": f, "kind": "gone", "off": 0, "del": 0, "ins": []})),
+            (None, Some(b)) => out.push(json!({"db": d, "f": f, "kind": "created", "off": 0, "del": 0, "ins": b})),
+            (Some(a), Some(b)) => {
+                if a != *b {
+                    let mut p = 0;
+                    while p < a.len() && p < b.len() && a[p] == b[p] {
+                        p += 1;
+                    }
+                    let mut s = 0;
+                    while s < a.len() - p && s < b.len() - p && a[a.len() - 1 - s] == b[b.len() - 1 - s] {
+                        s += 1;
+                    }
+                    out.push(json!({"db": d, "f": f, "kind": "splice", "off": p, "del": a.len() - p - s,
+                                    "ins": b[p..b.len() - s].to_vec()}));
+                }
+            }
+        }
+    }
+    json!(out)
+}
+
+fn state_name_of(s: nundb::bo::ValueStatus) -> &'static str {
+    match s {
+        nundb::bo::ValueStatus::Ok => "Ok",
+        nundb::bo::ValueStatus::Deleted => "Deleted",
+        nundb::bo::ValueStatus::Updated => "Updated",
+        nundb::bo::ValueStatus::New => "New",
+    }
+}
+
+fn strategy_code(s: nundb::bo::ConsensuStrategy) -> i64 {
+    match s {
+        nundb::bo::ConsensuStrategy::None => 0,
+        nundb::bo::ConsensuStrategy::Newer => 1,
+        nundb::bo::ConsensuStrategy::Arbiter => 2,
+    }
+}
+
+/// per queued snapshot: the entries storage_data_disk will visit (in the order this map hands them out),
+/// the database's metadata and its files; plus whether the key map is written first
+fn crash_pre(node: &Node, dir: &str, queue: &[(String, bool)], _strs: &mut Vec<Vec<u8>>) -> J {
+    let names: Vec<String> = queue.iter().map(|(d, _)| d.clone()).collect();
+    let files = db_files(dir, &names);
+    let mut snaps = vec![];
+    let map = node.dbs.map.read().unwrap();
+    for (d, reclaim) in queue.iter() {
+        if let Some(db) = map.get(d) {
+            let ents: Vec<J> = nundb::storage::common::get_keys_to_update(db, *reclaim)
+                .iter()
+                .map(|(k, v)| json!({"k": k.as_bytes(), "v": v.value.as_bytes(), "ver": v.version, "st": state_name_of(v.state),
+                                     "va": v.value_disk_addr, "ka": v.key_disk_addr}))
+                .collect();
+            let mut fs = serde_json::Map::new();
+            for (kind, _) in DB_FILE_KINDS.iter() {
+                match files.get(&format!("{}/{}", d, kind)).cloned().unwrap_or(None) {
+                    Some(b) => fs.insert(kind.to_string(), json!({"ex": true, "b": b})),
+                    None => fs.insert(kind.to_string(), json!({"ex": false, "b": []})),
+                };
+            }
+            snaps.push(json!({"db": d, "reclaim": reclaim, "id": db.metadata.id,
+                              "strategy": strategy_code(db.metadata.consensus_strategy), "ents": ents, "files": fs,
+                              "repeated": queue.iter().filter(|(x, _)| x == d).count() > 1}));
+        } else {
+            snaps.push(json!({"db": d, "reclaim": reclaim, "missing": true}));
+        }
+    }
+    json!({"snaps": snaps, "keymap_first": !node.dbs.is_oplog_valid.load(std::sync::atomic::Ordering::Relaxed)})
+}
+
+/// what the start-up on an image loaded for the named databases, keys and values as interned byte strings
+fn byte_load(nd: &Node, dbs: &[String], strs: &mut Vec<Vec<u8>>) -> J {
+    let mut out = serde_json::Map::new();
+    let map = nd.dbs.map.read().unwrap();
+    for d in dbs {
+        match map.get(d) {
+            None => {
+                out.insert(d.clone(), json!({"st": "absent", "m": [], "id": 0, "strategy": 0}));
+            }
+            Some(db) => {
+                let m = db.map.read().unwrap();
+                let mut recs: Vec<(usize, usize, i64)> = m
+                    .iter()
+                    .map(|(k, v)| (intern(strs, k.as_bytes()), intern(strs, v.value.as_bytes()), v.version as i64))
+                    .collect();
+                recs.sort();
+                out.insert(d.clone(), json!({"st": "ok", "m": recs, "id": db.metadata.id,
+                                            "strategy": strategy_code(db.metadata.consensus_strategy)}));
+            }
+        }
+    }
+    J::Object(out)
+}
+
 lazy_static::lazy_static! {
     static ref EXTRA: std::sync::Mutex<Option<Box<dyn Fn() -> J + Send>>> = std::sync::Mutex::new(None);
 }
@@ -159,6 +290,12 @@ pub fn run_case(case: &J, workdir: &str, out: &mut dyn Write, n: usize) {
             // copied (what a kill -9 at that instant leaves: buffered bytes are not there yet)
             ev["ev"] = json!("crashtick");
             ev["target"] = node.dump();
+            // byte-level pre-state of every queued snapshot (NunDiskCrash is followed against it)
+            let mut strs: Vec<Vec<u8>> = vec![];
+            let queue = snapshot_queue(&node);
+            ev["pre"] = crash_pre(&node, &dir, &queue, &mut strs);
+            let dbnames: Vec<String> = queue.iter().map(|(d, _)| d.clone()).collect();
+            let mut prev: std::collections::BTreeMap<String, Option<Vec<u8>>> = db_files(&dir, &dbnames);
             let img_root = format!("{}-img", dir);
             let _ = std::fs::remove_dir_all(&img_root);
             std::fs::create_dir_all(&img_root).unwrap();
@@ -182,14 +319,21 @@ pub fn run_case(case: &J, workdir: &str, out: &mut dyn Write, n: usize) {
                 let probe = probe_load_child(&idir, &user, &pwd);
                 let ok = matches!(probe, Ok(s) if s.success());
                 let mut img = json!({"n": n, "site": site, "load": if ok { "ok" } else { "fail" }, "files": dir_sizes(&idir)});
+                let cur = db_files(&idir, &dbnames);
+                img["patch"] = patches(&prev, &cur);
+                prev = cur;
                 if ok {
                     match Node::start("img", &idir, &user, &pwd, ClusterRole::Primary) {
-                        Ok(nd) => img["dump"] = nd.dump(),
+                        Ok(nd) => {
+                            img["dump"] = nd.dump();
+                            img["bload"] = byte_load(&nd, &dbnames, &mut strs);
+                        }
                         Err(_) => img["load"] = json!("fail"),
                     }
                 }
                 images.push(img);
             }
+            ev["strs"] = json!(strs);
             nundb::verif::set_data_dir(Some(dir.clone()));
             let _ = std::fs::remove_dir_all(&img_root);
             ev["images"] = json!(images);
